@@ -148,7 +148,7 @@ def calcActualAmounts (p : Pool) (lo hi : Int) (delta : Dec) : Res (Dec × Dec) 
   let (pl, pu) ← ticksToSqrtPrice lo hi p.tp
   let roundUp := delta.isPositive
   let okB (l a b : Dec) : Res Dec := if CalcAmountBaseDelta_ok l a b roundUp then .ok (CalcAmountBaseDelta l a b roundUp) else .panic .divZero
-  if p.tick ≥ lo && p.tick < hi then
+  if IsCurrentTickInRange p.tick lo hi then
     let b ← okB delta p.sqrtP pu
     return (b, CalcAmountQuoteDelta delta p.sqrtP pl roundUp)
   else if p.tick < lo then
@@ -199,7 +199,7 @@ def updatePosition (s : St) (pool : Nat) (lo hi : Int) (delta : Dec) (posId : Na
     if !poolHasPosition s3 pool then
       -- resetPool: price, tick and in-range liquidity are cleared
       setPool s3 { p with sqrtP := Dec.zero, tick := 0, liq := Dec.zero }
-    else if p.tick ≥ lo && p.tick < hi then setPool s3 { p with liq := Dec.add p.liq delta }
+    else if IsCurrentTickInRange p.tick lo hi then setPool s3 { p with liq := Dec.add p.liq delta }
     else setPool s3 p
   let s5 ← setAccumPositionFee s4 pool lo hi posId delta
   return (s5, Dec.truncateInt ab, Dec.truncateInt aq, loEmpty, hiEmpty)
